@@ -716,7 +716,7 @@ func TestBlockingAcquire(t *testing.T) {
 			n = 1
 		}
 		mw := int64(rapid.SampledFrom([]int{0, 1, 2, 5, 10, 20}).Draw(t, "mwMs")) * int64(time.Millisecond)
-		ctxKind := rapid.SampledFrom([]string{"background", "background", "nil", "cancelled", "cancel-during"}).Draw(t, "ctx")
+		ctxKind := rapid.SampledFrom([]string{"background", "background", "nil", "cancelled", "cancel-during", "deadline-during", "deadline-at-wait"}).Draw(t, "ctx")
 		if api == "Run" || api == "GetAsync" {
 			mw = polMaxWait
 			if ctxKind == "nil" {
@@ -745,6 +745,13 @@ func TestBlockingAcquire(t *testing.T) {
 		case "cancel-during":
 			ctx, cancel = context.WithCancel(context.Background())
 			time.AfterFunc(time.Duration(want/2), cancel)
+		case "deadline-during":
+			// the caller's own deadline expires half way through the wait: that is not the permit becoming usable
+			ctx, cancel = context.WithTimeout(context.Background(), time.Duration(want/2))
+		case "deadline-at-wait":
+			// ... or at the very instant the wait ends (either outcome is fine, but never an early success, here or in a
+			// later wait that reuses anything this one left behind)
+			ctx, cancel = context.WithTimeout(context.Background(), time.Duration(want))
 		}
 		defer cancel()
 		invoked := 0
@@ -800,10 +807,14 @@ func TestBlockingAcquire(t *testing.T) {
 		default:
 			class = "ctx-error"
 			m.Acquire(l.now, n, effMW) // the reservation was made before waiting
-			if ctxKind != "cancelled" && ctxKind != "cancel-during" {
+			byDeadline := ctxKind == "deadline-during" || ctxKind == "deadline-at-wait"
+			if ctxKind != "cancelled" && ctxKind != "cancel-during" && !byDeadline {
 				bad("unexpected-error", "unexpected error %v", err)
 			}
-			if !errors.Is(err, context.Canceled) {
+			if byDeadline && !errors.Is(err, context.DeadlineExceeded) {
+				bad("unexpected-error", "expected context.DeadlineExceeded, got %v", err)
+			}
+			if !byDeadline && !errors.Is(err, context.Canceled) {
 				bad("unexpected-error", "expected context.Canceled, got %v", err)
 			}
 			if invoked != 0 {
